@@ -384,8 +384,9 @@ func c12Invalid(c *core.Ctx, k *core.Case) {
 
 func init() {
 	p := &core.Property{
-		ID:   "C12",
-		Rule: "PLMN: all 1 100 000 (MCC, MNC) pairs through PlmnIDToNas and PlmnIDToString; AMF id: all 2^24 values through AmfIdToModels and AmfIdToNasWithError; GUTI / 5G-S-TMSI: PLMN sample × AMF sample × TMSI patterns through GutiTo*WithError, GutiTo*, the GUTI5G / TMSI5GS accessors and the MobileIdentity5GS text getters; SUCI: routing indicator 1–4 digits, schemes 0/1/2/other, MSIN 5–10 digits, NAI; PEI: 15/16-digit strings; invalid-text families (wrong length, non-digit, non-hex, hex of the wrong size). Non-trivial = every case (each compares against the TS layout); distinct by identity.",
+		ID:         "C12",
+		Interleave: []string{"guti", "suci", "nai", "pei", "invalid", "plmn-one"},
+		Rule:       "PLMN: all 1 100 000 (MCC, MNC) pairs through PlmnIDToNas and PlmnIDToString; AMF id: all 2^24 values through AmfIdToModels and AmfIdToNasWithError; GUTI / 5G-S-TMSI: PLMN sample × AMF sample × TMSI patterns through GutiTo*WithError, GutiTo*, the GUTI5G / TMSI5GS accessors and the MobileIdentity5GS text getters; SUCI: routing indicator 1–4 digits, schemes 0/1/2/other, MSIN 5–10 digits, NAI; PEI: 15/16-digit strings; invalid-text families (wrong length, non-digit, non-hex, hex of the wrong size). Non-trivial = every case (each compares against the TS layout); distinct by identity.",
 		Assumptions: []string{
 			"reference renderers/builders written from TS 24.501 9.11.3.4, TS 24.008 10.5.1.3 and TS 23.003 (AMF id = region 8 || set 10 || pointer 6)",
 			"hex text is lower case as the library emits it; upper-case input must convert to the same octets",
